@@ -808,7 +808,9 @@ func runC12(cfg Config, args []string) int {
 	}
 	cnt := 0
 	for wi := range worlds {
-		if !canon[wi].Accepted || cnt >= enumWorlds {
+		// (every byte of a 100 KB result would be 200 000 runs: the big worlds get the
+		// page multiples and the near-identical residues instead)
+		if !canon[wi].Accepted || cnt >= enumWorlds || len(canon[wi].Out) > 16384 {
 			continue
 		}
 		cnt++
